@@ -199,5 +199,62 @@ theorem ValidGroups.inRangeAll {n : Nat} {grps : List (List Nat)} (V : ValidGrou
 theorem ValidGroups.noOverlap {n : Nat} {grps : List (List Nat)} (V : ValidGroups n grps) :
     NoOverlap grps := V.2
 
+/-! ### invariance forces equal extents inside the groups -/
+
+/-- the order that exchanges the modes `a` and `b`. -/
+def swapOrder (n a b : Nat) : List Nat :=
+  (List.range n).map fun k => if k = a then b else if k = b then a else k
+
+theorem getD_swapOrder (n a b k : Nat) (hk : k < n) :
+    (swapOrder n a b).getD k 0 = if k = a then b else if k = b then a else k := by
+  simp [swapOrder, List.getD_eq_getElem?_getD, hk]
+
+theorem groupPerm_swap {grps : List (List Nat)} {n : Nat} {g : List Nat} {a b : Nat} (hg : g ∈ grps)
+    (ha : a ∈ g) (hb : b ∈ g) (han : a < n) (hbn : b < n) : GroupPerm grps n (swapOrder n a b) := by
+  refine ⟨?_, ?_⟩
+  · rw [isPermOf_iff]
+    refine ⟨by simp [swapOrder], ?_⟩
+    intro m hm
+    -- `m` sits at the position obtained by swapping once more
+    have hpos : (if m = a then b else if m = b then a else m) < n := by
+      by_cases h1 : m = a
+      · simp [h1, hbn]
+      · by_cases h2 : m = b
+        · subst h2; simp [h1, han]
+        · simp [h1, h2, hm]
+    have hval := getD_swapOrder n a b _ hpos
+    have : (swapOrder n a b).getD (if m = a then b else if m = b then a else m) 0 = m := by
+      rw [hval]
+      by_cases h1 : m = a
+      · subst h1
+        by_cases h3 : b = m
+        · simp [h3]
+        · simp [h3]
+      · by_cases h2 : m = b
+        · subst h2; simp [h1]
+        · simp [h1, h2]
+    rw [← this]
+    exact getD0_mem _ _ (by simpa [swapOrder] using hpos)
+  · intro k hk
+    have hk' : k < n := by simpa [swapOrder] using hk
+    rw [getD_swapOrder n a b k hk']
+    by_cases h1 : k = a
+    · subst h1; simp only [if_true]; exact Or.inr ⟨g, hg, ha, hb⟩
+    · by_cases h2 : k = b
+      · subst h2; simp only [h1, if_false, if_true]; exact Or.inr ⟨g, hg, hb, ha⟩
+      · simp [h1, h2]
+
+/-- a tensor invariant under the permutations inside the groups has equal extents inside every group. -/
+theorem IsSym.sizesOK [Zero α] {T : Dense α} {grps : List (List Nat)} (hr : InRangeAll T.shape.length grps)
+    (h : IsSym T grps) : SizesOK T.shape grps := by
+  intro g hg a ha b hb
+  have han := hr g hg a ha
+  have hbn := hr g hg b hb
+  have hp := groupPerm_swap hg ha hb han hbn
+  have hsh := (h _ hp).1
+  have := congrArg (fun l => l.getD a 0) hsh
+  rw [getD_gather _ _ _ (by simpa [swapOrder] using han), getD_swapOrder _ _ _ _ han] at this
+  simpa using this.symm
+
 end Sym
 end Pyttb
